@@ -448,3 +448,43 @@ V('h-search-break-low', H, '        parsing::cell_item top_item = agenda.top();\
 V('py-typecheck-copies', 'depccg/parsing.py', '    return doc, score_results\n\n\ndef apply_category_filters(',
   '    return doc, [ScoringResult(numpy.ascontiguousarray(t), numpy.ascontiguousarray(d)) for t, d in score_results]\n\n\ndef apply_category_filters(', ['C17'])
 V('ja-reader-rfind', 'depccg/tools/ja/reader.py', "cat = cat[:cat.find('_')]", "cat = cat[:cat.rfind('_')]", ['C20'])
+
+
+# ---------------------------------------------------------------- round 5 (rules added for the fifth batch of seeded changes)
+XMLP = 'depccg/printer/xml.py'
+JIGG = 'depccg/printer/jigg_xml.py'
+V('xml-token-fields-through-strip', XMLP, "            for k, v in token.items():\n                leaf_node.set(k, v)",
+  "            for k, v in token.items():\n                leaf_node.set(k, v.strip())", ['C15'])
+V('xml-token-fields-silent-renamed', XMLP, "            for k, v in token.items():\n                leaf_node.set(k, v)",
+  "            for name, value in token.items():\n                leaf_node.set(name, value)", ['C15', 'C07', 'C18', 'C19'], expect='silent')
+V('jigg-token-fields-lower', JIGG, "            for k, v in token.items():\n                token_node.set(k, v)",
+  "            for k, v in token.items():\n                token_node.set(k, v.lower())", ['C15'])
+V('xml-start-by-search', XMLP, "            start, token = tokens.pop(0)\n            leaf_node.set('start', str(start))",
+  "            start, token = tokens.pop(0)\n            leaf_node.set('start', str(tree.tokens.index(token)))", ['C07'])
+V('auto-ext-entity-chunk-swapped', 'depccg/printer/auto.py', "{lemma} {pos} {entity} {chunk} {cat}>)'", "{lemma} {pos} {chunk} {entity} {cat}>)'", ['C07'])
+V('auto-ext-silent-join', 'depccg/printer/auto.py', "            return f'(<L {cat} {word} {lemma} {pos} {entity} {chunk} {cat}>)'",
+  "            fields = ' '.join([lemma, pos, entity, chunk])\n            return f'(<L {cat} {word} {fields} {cat}>)'", ['C07', 'C08', 'C19'], expect='silent')
+V('ja-writer-unary-symbol-const', 'depccg/printer/ja.py', "            return f'{{{node.op_symbol} {node.cat} {children}}}'",
+  "            if len(node.children) == 1:\n                return f'{{ADV0 {node.cat} {children}}}'\n            return f'{{{node.op_symbol} {node.cat} {children}}}'", ['C20'])
+V('guess-fallback-reads-left', 'depccg/grammar/__init__.py', "        head_is_left=True", "        head_is_left=(x.left == y)", ['C20', 'C12', 'C15'])
+V('h-cache-cleared-when-large', H, "        if (cache->count(key) == 0)\n        {\n            std::vector<combinator_result> results;\n            if (scaffold(binary_callback",
+  "        if (cache->size() > 100000)\n            cache->clear();\n        if (cache->count(key) == 0)\n        {\n            std::vector<combinator_result> results;\n            if (scaffold(binary_callback", ['C11', 'C12'])
+V('h-rule-id-bitfield', H, "        unsigned rule_id;\n", "        unsigned rule_id : 8;\n", ['C12'])
+V('py-second-pass-no-beta', 'depccg/parsing.py', "            *args,\n            **kwargs,\n        )\n\n    else:",
+  "            *args,\n            **kwargs,\n        )\n        if not results:\n            results = depccg._parsing.run(doc, score_results, *args, **{**kwargs, 'use_beta': False})\n\n    else:", ['C16'])
+V('py-filters-skip-long', 'depccg/parsing.py', "        for index, token in enumerate(tokens):\n            if token.word in category_dict:",
+  "        if len(tokens) > 250:\n            continue\n        for index, token in enumerate(tokens):\n            if token.word in category_dict:", ['C17'])
+V('reader-auto-skips-failed', 'depccg/tools/reader.py', "            tree, tokens = _AutoLineReader(line).parse()\n            yield ReaderResult(name, tokens, tree)",
+  "            tree, tokens = _AutoLineReader(line).parse()\n            if len(tokens) == 1 and tokens[0].word == 'FAILED':\n                continue\n            yield ReaderResult(name, tokens, tree)", ['C08'])
+V('printer-sets-language', 'depccg/printer/__init__.py', "from depccg.lang import get_global_language", "from depccg.lang import get_global_language, set_global_language_to", ['C18'], expect='silent')
+V2('printer-calls-language-setter', [('depccg/printer/__init__.py', "from depccg.lang import get_global_language", "from depccg.lang import get_global_language, set_global_language_to", 1),
+                                     ('depccg/printer/__init__.py', "    if format == 'conll':\n        header =", "    if format == 'ja':\n        set_global_language_to('ja')\n    if format == 'conll':\n        header =", 1)], ['C18'])
+V('auto-cache-on-node', 'depccg/printer/auto.py', "    def rec(node):\n        if node.is_leaf:\n            cat = node.cat\n            word = denormalize(node.word)\n            pos = node.token.get('pos', 'POS')",
+  "    def rec(node):\n        if 'auto' in vars(node):\n            return vars(node)['auto']\n        vars(node)['seen'] = True\n        if node.is_leaf:\n            cat = node.cat\n            word = denormalize(node.word)\n            pos = node.token.get('pos', 'POS')", ['C18'])
+V('to-string-lang-unbound', 'depccg/printer/__init__.py', "                use_symbol=get_global_language() == 'ja',", "                use_symbol=lang == 'ja',", ['C19'])
+V('cat-parse-strips-conj', CAT, "        tokens = cat_split.sub(r' \\1 ', text)", "        if text.endswith('[conj]'):\n            text = text[:-6]\n        tokens = cat_split.sub(r' \\1 ', text)", ['C05'])
+V('cat-parse-silent-strip', CAT, "        tokens = cat_split.sub(r' \\1 ', text)", "        tokens = cat_split.sub(r' \\1 ', text.strip())", ['C05', 'C13', 'C17'], expect='silent')
+V('uni-getitem-base-lost', U, "                    return Atom(x.base, self.mapping[x.feature])", "                    return Atom('X', self.mapping[x.feature])", ['C03', 'C04', 'C06'])
+V('uni-getitem-silent-get', U, "                if x.feature in self.mapping:\n                    return Atom(x.base, self.mapping[x.feature])\n                else:\n                    return x",
+  "                return Atom(x.base, self.mapping.get(x.feature, x.feature))", ['C03', 'C04', 'C06'], expect='silent')
+V('uni-loop-skips-bound', U, "            if x_feature.unifies(y_feature):", "            if x_feature in self.mapping:\n                continue\n            if x_feature.unifies(y_feature):", ['C03', 'C04', 'C06'])
